@@ -139,12 +139,13 @@ fn classify_ron(e: &ron::error::SpannedError) -> String {
 
 // ------------------------------------------------------------------------------------------------ wrappers
 pub trait Wrap<C, T>: Serialize + DeserializeOwned { const TAG: &'static str; fn mk(c: C, a: T) -> Self; fn parts(&self) -> (C, T); }
-impl<C: Serialize + DeserializeOwned + Copy, T: Comp> Wrap<C, T> for Alpha<C, T> {
+// the (de)serializability of the wrapper is demanded of the concrete type at each use, not derived here from restated library bounds
+impl<C: Copy, T: Comp> Wrap<C, T> for Alpha<C, T> where Alpha<C, T>: Serialize + DeserializeOwned {
     const TAG: &'static str = "alpha";
     fn mk(color: C, alpha: T) -> Self { Alpha { color, alpha } }
     fn parts(&self) -> (C, T) { (self.color, self.alpha) }
 }
-impl<C: Premultiply<Scalar = T> + Serialize + DeserializeOwned + Copy, T: Comp> Wrap<C, T> for PreAlpha<C> {
+impl<C: Premultiply<Scalar = T> + Copy, T: Comp> Wrap<C, T> for PreAlpha<C> where PreAlpha<C>: Serialize + DeserializeOwned {
     const TAG: &'static str = "prealpha";
     fn mk(color: C, alpha: T) -> Self { PreAlpha { color, alpha } }
     fn parts(&self) -> (C, T) { (self.color, self.alpha) }
@@ -168,11 +169,19 @@ impl<C: Premultiply<Scalar = T> + DeserializeOwned, T: Comp> OptWrap<C, T> for O
 
 /// `#[serde(with = "palette::serde::as_array")]` / `as_uint`
 struct AsArr<X>(X);
-impl<X: ArrayCast> Serialize for AsArr<X> where X::Array: Serialize { fn serialize<S: Serializer>(&self, s: S) -> Result<S::Ok, S::Error> { palette::serde::as_array::serialize(&self.0, s) } }
-impl<'de, X: ArrayCast> Deserialize<'de> for AsArr<X> where X::Array: Deserialize<'de> { fn deserialize<D: Deserializer<'de>>(d: D) -> Result<Self, D::Error> { palette::serde::as_array::deserialize(d).map(AsArr) } }
+// one impl per concrete type, so that the helper's own trait bounds (not the harness's) decide what is callable
+macro_rules! as_arr { ($($x:ty),* $(,)?) => { $(
+    impl Serialize for AsArr<$x> { fn serialize<S: Serializer>(&self, s: S) -> Result<S::Ok, S::Error> { palette::serde::as_array::serialize(&self.0, s) } }
+    impl<'de> Deserialize<'de> for AsArr<$x> { fn deserialize<D: Deserializer<'de>>(d: D) -> Result<Self, D::Error> { palette::serde::as_array::deserialize(d).map(AsArr) } }
+)* } }
+as_arr!(palette::Srgb<f32>, palette::Srgba<f32>, palette::Hsva<palette::encoding::Srgb, f64>, palette::Lch<D65, f64>, palette::Srgba<u8>, palette::Hsl<palette::encoding::Srgb, u8>,
+        PreAlpha<palette::LinSrgb<f32>>, palette::SrgbLumaa<f32>, palette::SrgbLuma<f64>);
 struct AsUint<X>(X);
-impl<X: UintCast> Serialize for AsUint<X> where X::Uint: Serialize { fn serialize<S: Serializer>(&self, s: S) -> Result<S::Ok, S::Error> { palette::serde::as_uint::serialize(&self.0, s) } }
-impl<'de, X: UintCast> Deserialize<'de> for AsUint<X> where X::Uint: Deserialize<'de> { fn deserialize<D: Deserializer<'de>>(d: D) -> Result<Self, D::Error> { palette::serde::as_uint::deserialize(d).map(AsUint) } }
+macro_rules! as_uint { ($($x:ty),* $(,)?) => { $(
+    impl Serialize for AsUint<$x> { fn serialize<S: Serializer>(&self, s: S) -> Result<S::Ok, S::Error> { palette::serde::as_uint::serialize(&self.0, s) } }
+    impl<'de> Deserialize<'de> for AsUint<$x> { fn deserialize<D: Deserializer<'de>>(d: D) -> Result<Self, D::Error> { palette::serde::as_uint::deserialize(d).map(AsUint) } }
+)* } }
+as_uint!(palette::rgb::PackedRgba, palette::rgb::PackedArgb, palette::rgb::PackedBgra, palette::rgb::PackedAbgr, palette::SrgbLuma<u8>, palette::SrgbLuma<u16>, palette::SrgbLuma<u32>);
 
 // ------------------------------------------------------------------------------------------------ run context
 pub struct Cx { out: Out, rng: Rng, n: usize, n_de: usize, types_seen: Vec<String>, bounded_alpha_missing: u64, flatten_missing: u64 }
@@ -384,7 +393,7 @@ where T: Comp, C: ArrayCast<Array = [T; N]> + Serialize + DeserializeOwned + Cop
 
 /// `palette::serde::as_array` on a value whose array form is `[T; M]`
 fn array_helper<X, T: Comp, const M: usize>(cx: &mut Cx, what: &str, x: X)
-where X: ArrayCast<Array = [T; M]> + Copy, [T; M]: Serialize + DeserializeOwned {
+where X: ArrayCast<Array = [T; M]> + Copy, AsArr<X>: Serialize + DeserializeOwned {
     let arr: [T; M] = cast::into_array(x);
     let inp = toks(&arr);
     let key = format!("{}:{}", what, T::TAG);
@@ -424,7 +433,7 @@ where X: ArrayCast<Array = [T; M]> + Copy, [T; M]: Serialize + DeserializeOwned 
 
 /// `palette::serde::as_uint`
 fn uint_helper<X, U>(cx: &mut Cx, what: &str, x: X)
-where X: UintCast<Uint = U> + Copy, U: Copy + Into<u64> + PartialEq + Debug + Serialize + DeserializeOwned {
+where X: UintCast<Uint = U> + Copy, U: Copy + Into<u64> + PartialEq + Debug, AsUint<X>: Serialize + DeserializeOwned {
     let u: U = cast::into_uint(x);
     let un: u64 = u.into();
     let (node, js, rn) = texts(&AsUint(x));
